@@ -17,6 +17,6 @@ CONSTANTS
   History = FALSE
 VIEW EdgeView
 INVARIANTS TypeOK Bound LruOK
-PROPERTIES ImplConforms ImplExtraOK
+PROPERTIES ImplConforms ImplExtraOK CacheIsLru
 ACTION_CONSTRAINT EmitEdge
 CHECK_DEADLOCK FALSE
